@@ -86,9 +86,9 @@ var (
 	badNames  = []string{"0a", ""}
 	eqValues  = []string{"1", "2", "x1", ""}
 	badValue  = "@@badutf8" // stands for the byte 0xff (JSON cannot carry it); see unq
-	rePats    = []string{"1|2", ".*", "x.+", "", "[12]?", "1"}
+	rePats    = []string{"1|2", ".*", "x.+", "", "[12]?", "1", ".+", "x.*", ".*1", ".*x1.*"}
 	badPats   = []string{"(", "a{2,1}"}
-	lblValues = []string{"1", "2", "x1"}
+	lblValues = []string{"1", "2", "x1", "x1\n", "1\n2"} // incl. values with a line break ("." never matches one)
 	comments  = []string{"c", "maintenance", "", "é", strings.Repeat("long comment ", 12)}
 	creators  = []string{"alice", "bob"}
 )
@@ -1008,7 +1008,8 @@ func genMat(g *vh.Rand, bad string) Mat {
 }
 
 func nonEmptyMat(g *vh.Rand) Mat {
-	return vh.Pick(g, []Mat{{0, "a", "1"}, {0, "b", "2"}, {1, "a", "1|2"}, {1, "b", "x.+"}, {2, "a", "1"}, {3, "b", "1|2"}, {0, "a", "x1"}})
+	return vh.Pick(g, []Mat{{0, "a", "1"}, {0, "b", "2"}, {1, "a", "1|2"}, {1, "b", "x.+"}, {2, "a", "1"}, {3, "b", "1|2"}, {0, "a", "x1"},
+		{1, "a", ".+"}, {1, "b", "x.*"}, {3, "a", ".*1"}, {1, "a", ".*x1.*"}, {3, "b", "x.*"}})
 }
 
 // lookalikes: families of matcher configurations that are structurally DIFFERENT but look alike — they collide
